@@ -173,6 +173,9 @@ class Run:
         n_obl = len(self.theorems) + len(self.obligations)
         n_dis = sum(1 for t in self.theorems if t in audit.get("axioms", {}) and t not in audit.get("bad_axioms", {})) \
             + sum(1 for _, ok, _ in self.obligations if ok)
+        missing = [t for t in self.theorems if t not in audit.get("axioms", {})]
+        if missing:
+            raise CheckError(f"property theorems missing from the axiom audit: {missing}")
         ev = {
             "property_id": self.prop, "tier": self.tier, "seed": self.seed, "level": "proof",
             "coverage": {
